@@ -424,7 +424,16 @@ pub fn run(ctx: &Ctx) -> Result<Run, String> {
         // counts differ between two runs and nothing was found: the search itself cannot be trusted
         return Err(format!("HID interleaving search not deterministic: {states}/{transitions} vs {states2}/{transitions2}"));
     }
-    stats.samples.push(json!({"interleave": {"combo": sample_combo, "order": "all orders"}}));
+    let n_pk: Vec<usize> = plan(&sample_combo).map(|p| p.packets.iter().map(|x| x.len()).collect()).unwrap_or_default();
+    let mut round_robin: Vec<u8> = vec![];
+    for r in 0..*n_pk.iter().max().unwrap_or(&0) {
+        for (i, n) in n_pk.iter().enumerate() {
+            if r < *n {
+                round_robin.push(i as u8);
+            }
+        }
+    }
+    stats.samples.push(json!({"interleave": {"combo": sample_combo, "order": round_robin, "note": "one of the orders; all orders of every combination are explored"}}));
     // plain enumeration (no hook, no dedup) for k = 2 (all) and k = 3 (lengths up to 3 packets)
     let mut plain: Vec<Combo> = combos(2, &LENS, true);
     plain.extend(combos(3, &[0, 58, 117, 175], false));
